@@ -195,6 +195,11 @@ Theorem C20_atoi_shape : forall s z, atoi s = Some z ->
                   /\ ds <> [] /\ forallb is_digit ds = true
                   /\ z = (if bytes_eqb sign [45] then - dval 0 ds else dval 0 ds).
 Proof. exact atoi_shape. Qed.
+Theorem C20_atoi_complete : forall sign ds,
+  sign = [] \/ sign = [43] \/ sign = [45] -> ds <> [] -> forallb is_digit ds = true ->
+  let v := if bytes_eqb sign [45] then - dval 0 ds else dval 0 ds in
+  atoi (sign ++ ds) = if int64b v then Some v else None.
+Proof. exact atoi_complete. Qed.
 Theorem C20_parse_bool_none : forall s,
   parse_bool s = None <->
   ~ In s (map bs ["1"; "t"; "T"; "true"; "TRUE"; "True"; "0"; "f"; "F"; "false"; "FALSE"; "False"]%string).
@@ -236,6 +241,7 @@ Print Assumptions C20_float_bounds.
 Print Assumptions C20_atoi_itoa.
 Print Assumptions C20_atoi_int64.
 Print Assumptions C20_atoi_shape.
+Print Assumptions C20_atoi_complete.
 Print Assumptions C20_parse_bool_none.
 Print Assumptions C20_literals_spelled.
 Print Assumptions C20_spec_sound.
